@@ -493,9 +493,9 @@ def _(p):
         return f"wrong-column-count: {formula!r} has {len(cat_cols)} columns for the factor, expected {want.shape[1]} ({labels})"
     with_a = "a:" in formula
     for r, i in enumerate(kept):
-        li = lv.index(rows[i])
+        li = lv.index(rows[i]) if rows[i] in lv else None
         for c, j in enumerate(cat_cols):
-            w = want[li, c] * (p["a"][i] if with_a else 1.0)
+            w = (want[li, c] if li is not None else 0.0) * (p["a"][i] if with_a else 1.0)
             if abs(cells[r, j] - w) > 1e-7 * (1 + abs(w)):
                 return f"encoding-mismatch: {formula!r} row {i} (level {rows[i]!r}) column {labels[j]!r} = {cells[r, j]}, indicator x coding gives {w}"
     return None
@@ -700,6 +700,11 @@ def _(p):
     from formulaic import Formula, ModelSpec, model_matrix
 
     f, wrt = p["formula"], p["wrt"]
+    if "~" in f or "|" in f:
+        F = Formula(f)
+        want = F._map(lambda part: [repr(t) for t in part.differentiate(*wrt)])._to_dict()
+        got = F.differentiate(*wrt)._map(lambda part: [repr(t) for t in part])._to_dict()
+        return None if got == want else f"derivative-routes-differ: d/d{wrt} of {f!r}: StructuredFormula.differentiate gives {got}, differentiating each part gives {want}"
     cols = sorted({str(v).split(".")[0] for v in Formula(f).required_variables} | {w for w in wrt})
     import re
 
